@@ -1,18 +1,20 @@
 (* Executable driver for the correspondence check of C05 (checks/c05.py): cases with the implementation's
    observations, compared with Model/Quorum.v by vm_compute. *)
 From Coq Require Import List NArith ZArith Bool.
-Require Import Olric.Gen.Consts Olric.Model.LWW Olric.Model.Quorum.
+Require Import Olric.Gen.Consts Olric.Model.LWW Olric.Model.Quorum Olric.Model.Resp.
 Import ListNotations.
 
 Inductive pclass := PAck | PWriteQuorum | PKeyTooLarge | PEntryTooLarge | POther.
 Inductive gclass := GValue (val : list N) (ts : Z) | GNotFound | GReadQuorum | GOther.
 Inductive rclass := QClusterQuorum | QHandled | QUnknown | QWrongArgs | QOther.
+Inductive iclass := IcRefused | IcValue (n : Z) | IcOther.
 
 Inductive qcase :=
 | CPut (R W : nat) (backups_ok : list bool) (local_err : option lerr)
        (res : pclass) (owner_has : bool) (backups_have : list bool)
 | CGet (RQ : nat) (now_ms : Z) (local : option entry) (backups : list (bool * option entry))
        (res : gclass)
+| CIncr (RQ : nat) (now_ms : Z) (local : option entry) (backups : list (bool * option entry)) (res : iclass)
 | CServe (registered : list bytes) (num_members mcq : Z) (name : bytes) (args : list bytes) (res : rclass)
 | CNewDMap (num_members mcq : Z) (res : rclass).
 
@@ -48,6 +50,7 @@ Definition rclass_eqb (a b : rclass) : bool :=
 Inductive qobs :=
 | MPutObs (res : pclass) (owner_has : bool) (backups_have : list bool)
 | MGetObs (res : gclass)
+| MIncrObs (res : iclass)
 | MReply (res : rclass).
 
 Definition run_case (c : qcase) : option qobs :=
@@ -60,6 +63,17 @@ Definition run_case (c : qcase) : option qobs :=
     let answers := map (fun p => remote_answer now (fst p) (snd p)) backups in
     let '(r, _) := get_on_cluster RQ false false now local [] answers in
     if gclass_eqb (gclass_of r) res then None else Some (MGetObs (gclass_of r))
+  | CIncr RQ now local backups res =>
+    let answers := map (fun p => remote_answer now (fst p) (snd p)) backups in
+    let value_of := fun e : entry => match parse_int 64 (e_val e) with Some z => z | None => 0%Z end in
+    let m := match incr_on_cluster RQ false now local [] answers value_of 1 with IRefused => IcRefused | INew v => IcValue v end in
+    (* a write quorum failure of the write half is reported as IcOther by the harness: only the read half is compared then *)
+    match res, m with
+    | IcRefused, IcRefused => None
+    | IcValue a, IcValue b => if Z.eqb a b then None else Some (MIncrObs m)
+    | IcOther, IcValue _ => None
+    | _, _ => Some (MIncrObs m)
+    end
   | CServe reg n mcq name args res =>
     let r := serve reg n mcq true name args in
     if rclass_eqb (rclass_of r) res then None else Some (MReply (rclass_of r))
